@@ -347,6 +347,11 @@ enum IpMut {
     Key(usize),
     Sig(usize),
     Structural(&'static str),
+    /// coordinated forgery without the secret key: alter one bound field and recompute the public node id
+    /// (SHA-256 of ip || key || salt || timestamp) consistently, keeping the old signature
+    RestampIp(usize),
+    RestampSalt(usize),
+    RestampTs(usize),
 }
 impl IpMut {
     fn kind(&self) -> &'static str {
@@ -358,6 +363,9 @@ impl IpMut {
             IpMut::Key(_) => "public-key-bit",
             IpMut::Sig(_) => "signature-bit",
             IpMut::Structural(s) => s,
+            IpMut::RestampIp(_) => "ip-bit+node-id-recomputed",
+            IpMut::RestampSalt(_) => "salt-bit+node-id-recomputed",
+            IpMut::RestampTs(_) => "timestamp-bit+node-id-recomputed",
         }
     }
 }
@@ -403,6 +411,9 @@ fn ip_muts<A: FlipIp>(full: bool, small_only: bool) -> Vec<IpMut> {
     m.extend((0..64).map(IpMut::Ts));
     m.extend((0..256).map(IpMut::NodeId));
     m.extend(IP_STRUCT.iter().map(|s| IpMut::Structural(*s)));
+    m.extend((0..A::bits()).map(IpMut::RestampIp));
+    m.extend((0..128).map(IpMut::RestampSalt));
+    m.extend((0..64).map(IpMut::RestampTs));
     if !small_only {
         m.extend(flip_bits(PK_LEN, full).into_iter().map(IpMut::Key));
         m.extend(flip_bits(SIG_LEN, full).into_iter().map(IpMut::Sig));
@@ -418,6 +429,21 @@ fn apply_ip<A: FlipIp>(g: &GenericIpNodeID<A>, m: &IpMut) -> GenericIpNodeID<A> 
         IpMut::NodeId(b) => x.node_id = flip(&g.node_id, *b),
         IpMut::Key(b) => x.public_key = flip(&g.public_key, *b),
         IpMut::Sig(b) => x.signature = flip(&g.signature, *b),
+        IpMut::RestampIp(_) | IpMut::RestampSalt(_) | IpMut::RestampTs(_) => {
+            match m {
+                IpMut::RestampIp(b) => x.ip_addr = g.ip_addr.flip_bit(*b),
+                IpMut::RestampSalt(b) => x.salt = flip(&g.salt, *b),
+                IpMut::RestampTs(b) => x.timestamp_secs ^= 1u64 << b,
+                _ => {}
+            }
+            use sha2::{Digest, Sha256};
+            let mut h = Sha256::new();
+            h.update(x.ip_addr.octets_vec());
+            h.update(&x.public_key);
+            h.update(&x.salt);
+            h.update(x.timestamp_secs.to_le_bytes());
+            x.node_id = h.finalize().to_vec();
+        }
         IpMut::Structural(s) => match *s {
             "node-id-empty" => x.node_id.clear(),
             "node-id-truncated" => {
